@@ -226,24 +226,27 @@ def prune : P String := do
     | none => a
   let a := { a with v := a.v.failIf (!(isPermB xs arr) || e > n) "Pruner not_a_permutation" }
   let a := checkRemoved "Pruner" S eps arr e certs a
-  -- every kept vector is needed somewhere
+  -- "contains no vector that is nowhere needed": every kept vector must be STRICTLY above all other kept vectors somewhere
+  -- (by more than 1e-9 relative to the data, verified exactly); a verified Farkas cover by the others (within 1e-12
+  -- relative: nowhere needed) is a failing input; neither certificate = undecided
   let kept := arr.take e
   let a := (List.range e).foldl (fun (a : Acc) i =>
     let k := kept.getD i []
     let others := kept.eraseIdx i
     if others.isEmpty then a else
-    match need.find? (fun c => c.idx == i) with
-    | none => { a with undecided := a.undecided + 1 }
-    | some c =>
-      let okB := match c.b.bind normalize with
-        | some b => isBeliefB S b && others.all (fun g => decide (dot b g ≤ dot b k + tiny M))
-        | none => false
-      if okB then a else
-      let useless := match c.lam.bind normalize with
-        | some l => isBeliefB others.length l && (List.range S).all (fun s => decide (k.getD s 0 + eps < comboAt l others s))
-        | none => false
-      if useless then { a with v := a.v.failIf true s!"Pruner kept_vector_not_needed idx={i} {showVec k}" }
-      else { a with undecided := a.undecided + 1 }) a
+    match neededClause S (tiny M) (tiny M / 1000) others k (need.find? (fun c => c.idx == i)) with
+    | .ok => a
+    | .bad =>
+      -- attribution: did `k` enter through a witness-LP answer that is not strict in exact arithmetic (though within the LP
+      -- wrapper's documented precision, otherwise `witness_below_a_best_vector` above has fired)? Then the loop did what its
+      -- oracle told it and the clause is charged to WitnessLP; else (corner step, or a strict witness) to Pruner itself.
+      let viaLP := calls.any (fun c => match c.w.bind normalize with
+        | some w => !(c.best.contains k) && decide (dot w c.v ≤ dot w k + tiny M) &&
+                    c.best.any (fun g => decide (dot w c.v ≤ dot w g))
+        | none => false)
+      if viaLP then { a with v := a.v.failIf true s!"WitnessLP nonstrict_witness_within_lp_precision idx={i} {showVec k}" }
+      else { a with v := a.v.failIf true s!"Pruner unneeded_vector_kept idx={i} {showVec k}" }
+    | .undecided => { a with undecided := a.undecided + 1 }) a
   return a.render
 
 /-! ### interpolation -/
